@@ -32,6 +32,8 @@ type Clause struct {
 	Expr  ast.Expr
 	Try   bool // attempted, reported, never alarmed on
 	Line  int
+	Using      []string // `using` list: the only lemmas/axioms in this clause's query
+	UsingGiven bool
 }
 
 type LoopSpec struct {
@@ -79,6 +81,7 @@ type Contract struct {
 	Uses         []string
 	Asserts      map[string][]Clause // call-site assertions
 	FnParams     map[string]*FnParamSpec
+	Cuts         map[string][]Clause // cut points: site `Callee#k` -> assertions
 }
 
 // FnParamSpec is the contract of a function-typed parameter.
@@ -231,6 +234,34 @@ func Load(repoDir, verifDir string, patterns []string) (*Engine, error) {
 					}
 				case *ast.IncDecStmt:
 					e.noteAssigned(p, s.X)
+				case *ast.CallExpr:
+					// x.f.M() with M a repo method on a pointer receiver and f a non-pointer field of
+					// *x: the call takes &x.f implicitly
+					if msel, ok := unparenExpr(s.Fun).(*ast.SelectorExpr); ok {
+						if ms, ok := p.TypesInfo.Selections[msel]; ok && ms.Kind() == types.MethodVal {
+							mf, _ := ms.Obj().(*types.Func)
+							if mf != nil && mf.Pkg() != nil && strings.HasPrefix(mf.Pkg().Path(), RepoModule) {
+								msig := mf.Type().(*types.Signature)
+								_, recvIsPtr := msig.Recv().Type().(*types.Pointer)
+								rt := p.TypesInfo.TypeOf(msel.X)
+								if rt != nil && recvIsPtr {
+									if _, argIsPtr := rt.Underlying().(*types.Pointer); !argIsPtr {
+										if sel, ok := unparenExpr(msel.X).(*ast.SelectorExpr); ok {
+											if sl, ok := p.TypesInfo.Selections[sel]; ok && sl.Kind() == types.FieldVal {
+												if fv, ok := sl.Obj().(*types.Var); ok {
+													if bt := p.TypesInfo.TypeOf(sel.X); bt != nil {
+														if _, isPtr := bt.Underlying().(*types.Pointer); isPtr {
+															e.addrTaken[fv.Origin()] = true
+														}
+													}
+												}
+											}
+										}
+									}
+								}
+							}
+						}
+					}
 				case *ast.UnaryExpr:
 					if s.Op == token.AND {
 						e.noteAssigned(p, s.X)
@@ -323,9 +354,10 @@ var clauseKeywords = map[string]bool{
 	"onlysafety": true, "unfold": true, "assert": true, "cases": true, "partial": true,
 	"lemma": true, "induction": true, "uses": true, "hint": true, "reads": true, "guard": true,
 	"guarded": true, "unshared": true, "fnparam": true, "monitor": true, "stepinv": true,
-	"typing": true,
+	"typing": true, "cut": true,
 }
 
+var usingRe = regexp.MustCompile(`^([A-Za-z_][A-Za-z0-9_]*)\s+using\s+([A-Za-z0-9_, ]+):\s*(.*)$`)
 var fnparamRe = regexp.MustCompile(`^([A-Za-z_][A-Za-z0-9_]*)\(([^)]*)\)\s*:\s*(.*)$`)
 var assertRe = regexp.MustCompile(`^(before|after)\s+([A-Za-z_][A-Za-z0-9_]*)#([0-9]+)\s*:\s*(.*)$`)
 
@@ -375,7 +407,18 @@ func (e *Engine) parseContracts(body, pkgPath, file string, line0 int) error {
 			cl.Try = true
 			txt = strings.TrimSpace(txt[4:])
 		}
-		if m := labelRe.FindStringSubmatch(txt); m != nil {
+		if m := usingRe.FindStringSubmatch(txt); m != nil {
+			// `label using lemma1, axiom2: expr` — only the named lemmas/axioms are part of this
+			// clause's proof obligation (the others are left out of the query)
+			cl.Label = m[1]
+			for _, u := range strings.Split(m[2], ",") {
+				if u = strings.TrimSpace(u); u != "" && u != "nothing" {
+					cl.Using = append(cl.Using, u)
+				}
+			}
+			cl.UsingGiven = true
+			txt = strings.TrimSpace(m[3])
+		} else if m := labelRe.FindStringSubmatch(txt); m != nil {
 			cl.Label = m[1]
 			txt = strings.TrimSpace(txt[len(m[1])+1:])
 		}
@@ -635,6 +678,27 @@ func (e *Engine) parseContracts(body, pkgPath, file string, line0 int) error {
 				}
 				site := m[1] + " " + m[2] + "#" + m[3]
 				cur.Asserts[site] = append(cur.Asserts[site], Clause{Label: fmt.Sprintf("%s-%s#%s.%d", m[1], m[2], m[3], len(cur.Asserts[site])+1), Src: m[4], Expr: ex, Line: rc.line})
+			case "cut":
+				// cut before Callee#k: <expr> — a cut point before the top-level statement that
+				// holds the k-th call (source order) of Callee: the assertion is proved, then the
+				// path history is forgotten and only the assertion is assumed
+				m := assertRe.FindStringSubmatch(rc.text)
+				if m == nil || m[1] != "before" {
+					return fmt.Errorf("%s:%d: cut before Name#k: expr", file, rc.line)
+				}
+				cl, err := mkClause(rawClause{"cut", m[4], rc.line})
+				if err != nil {
+					return err
+				}
+				site := m[2] + "#" + m[3]
+				if cur.Cuts == nil {
+					cur.Cuts = map[string][]Clause{}
+				}
+				if cl.Label == "" {
+					cl.Label = fmt.Sprint(len(cur.Cuts[site]) + 1)
+				}
+				cl.Label = site + "." + cl.Label
+				cur.Cuts[site] = append(cur.Cuts[site], cl)
 			case "stepinv":
 				// stepinv <expr>: an invariant on shared state that every atomic step of the body
 				// must re-establish: proved after each call of a sync or sync/atomic operation
